@@ -266,11 +266,11 @@ func Sub(a, b Term) Term {
 	}
 	return App(a.Sort, "-", a, b)
 }
-func Neg(a Term) Term    { return App(a.Sort, "-", a) }
-func Lt(a, b Term) Term  { return App(SBool, "<", a, b) }
-func Le(a, b Term) Term  { return App(SBool, "<=", a, b) }
-func Gt(a, b Term) Term  { return App(SBool, ">", a, b) }
-func Ge(a, b Term) Term  { return App(SBool, ">=", a, b) }
+func Neg(a Term) Term   { return App(a.Sort, "-", a) }
+func Lt(a, b Term) Term { return App(SBool, "<", a, b) }
+func Le(a, b Term) Term { return App(SBool, "<=", a, b) }
+func Gt(a, b Term) Term { return App(SBool, ">", a, b) }
+func Ge(a, b Term) Term { return App(SBool, ">=", a, b) }
 func Select(a, i Term) Term {
 	return App(a.Sort.Elem(), "select", a, i)
 }
